@@ -103,7 +103,11 @@ impl<W: Write> Cases<W> {
     }
     pub fn end(&mut self) {
         self.cur.push_str("END\n");
-        if self.samples.len() < 3 && self.cur.len() < 600 {
+        // samples for the evidence file: small cases, but not the degenerate ones (a handful of lines): the first
+        // three cases between 250 and 1500 characters; the very first case is kept in case none qualifies
+        if self.samples.is_empty() && self.cur.len() < 1500 {
+            self.samples.push(self.cur.clone());
+        } else if self.samples.len() < 4 && self.cur.len() >= 250 && self.cur.len() < 1500 {
             self.samples.push(self.cur.clone());
         }
         self.out.write_all(self.cur.as_bytes()).unwrap();
